@@ -192,7 +192,10 @@ class DerivedObsMonitor(taps.Monitor):
             chains, union = dense.union_lists(snaps)
             wmax = max([1.0] + list(dense.weights(snaps, chains, union).values()))
             scale = dense.delta_scale(snaps, g) * wmax
-            # for finite-difference gradients the tolerance also has to cover the gradient error
+            if path != 'man_grad':
+                # a finite-difference gradient carries an absolute error; with rtol 2e-6 this floor allows 2e-9 (1 + |f|): without this floor a
+                # derivative that is zero to rounding (saturated tanh, exact cancellation) would be judged at 0
+                scale += dense.delta_scale(snaps, np.full(len(g), 1e-3 * (1.0 + abs(float(new_values[i_val]))))) * wmax
             compare_obs(ctx, got, ref, 'L1:' + path, scale=scale, rtol=rtol, vtol=1e-12,
                         what='derived_observable output %s of %d inputs' % (i_val, nin),
                         rv_tol=1e-11)
@@ -817,7 +820,9 @@ def case_tree(ctx, rng, tier, klass):
     ref = dense.propagate(snaps_u, g_u, f_u)
     chains, union = dense.union_lists(snaps_u)
     wmax = max([1.0] + list(dense.weights(snaps_u, chains, union).values()))
-    scale = dense.delta_scale(snaps_u, g_u) * wmax * tree_size(t)
+    # intermediate derivatives are O(1) even where the total derivative cancels: the rounding of the
+    # step-wise evaluation scales with them, not with the (possibly vanishing) total gradient
+    scale = (dense.delta_scale(snaps_u, g_u) + dense.delta_scale(snaps_u, [1.0] * len(g_u))) * wmax * tree_size(t)
     ctx.count('L3_trees')
     ctx.cell('L3', klass, 'depth%d' % depth)
     # (a) step by step
@@ -865,7 +870,7 @@ def case_explicit(ctx, rng, tier, which):
     elif which == 'man_grad':
         pe.derived_observable(lambda x, **kw: x[0] ** 2 * x[1], [a, b], man_grad=[2 * a.value * b.value, a.value ** 2])
     elif which == 'matmul':
-        c, dd = make_pair(rng, (0.5, 2.0), (0.5, 2.0), str(rng.choice(RELATIONS)), tier)
+        c, dd = make_pair(rng, (0.5, 2.0), (0.5, 2.0), str(rng.choice([r for r in RELATIONS if not r.startswith('cov')])), tier)
         m1 = np.array([[a, b], [c, dd]])
         m2 = np.array([[b, 1.5], [a, c]]) if rng.random() < 0.5 else np.array([[b, dd], [a, c]])
         pe.linalg.matmul(m1, m2)
